@@ -685,6 +685,8 @@ class Interp:
                 self.trace = old
             if any(it[0] != "guard" for it in sub_.items):
                 raise Unanalysable("effects inside the else block of a let-else", where)
+            if not self.is_abort_value(self.deref(rv)):
+                raise Unanalysable("let-else whose else block returns a non-error value", where)
             self.trace.add("guard", c_leave, rv, where, self.fn_stack[-1] if self.fn_stack else "")
             self.learn(c_leave)
 
@@ -1067,7 +1069,7 @@ class Interp:
             elif le(b, a, self.bounds):
                 val = False
         elif c.op == "eq":
-            if eq(a, b):
+            if eq(a, b) or (le(a, b, self.bounds) and le(b, a, self.bounds)):
                 val = True
             elif lt(a, b, self.bounds) or lt(b, a, self.bounds):
                 val = False
@@ -1107,6 +1109,11 @@ class Interp:
             return self.ev_raw(e["f"], env) if e.get("f") else UNIT
         # guard: `if c { ...; return X }` without else
         if e.get("f") is None and self.block_always_returns(e["t"]):
+            if self.parity_infeasible(c):
+                # e.g. `if n == 1 { return .. }` analysed at n = 2h: the exit cannot be taken for any integer h; the
+                # analysis instance does not cover it (the length-1 instance is analysed separately, see ipp.analyse_create_n1)
+                slog(self, "if-infeasible", e, True, str(c))
+                return UNIT
             old = self.sub_trace()
             try:
                 self.ev_raw(e["t"], env)
@@ -1123,9 +1130,10 @@ class Interp:
             self.trace = old
             if any(it[0] not in ("guard",) for it in sub.items):
                 raise Unanalysable("effects inside an early-return branch", FX.short(e.get("sp")))
-            if isinstance(rv, Enum) and rv.variant in ("Ok", "Some"):
-                # an early *successful* return is not an abort: the function's value is conditional (handled as an
-                # if/else with the rest of the body at function-body level, otherwise outside the fragment)
+            if not self.is_abort_value(rv):
+                # an early *successful* return (`Ok(..)`, `Some(..)`, a plain value, `return;`) is not an abort: the
+                # function's value and effects are conditional (handled as an if/else with the rest of the body at
+                # function-body level, otherwise outside the fragment).  Only Err/None/panic exits are guards.
                 raise Unanalysable("early return of a non-error value", FX.short(e.get("sp")))
             for c1 in self.disjuncts(c):
                 # `if a || b || c { return X }` is three guards in a row (short-circuit order)
@@ -1178,7 +1186,39 @@ class Interp:
             return vt
         if isinstance(vt, (Vec, Tup)) and vt.__class__ is vf.__class__:
             return self.merge_val(c, vt, vf, None)
+        if isinstance(vt, Struct) and isinstance(vf, Struct) and vt.path == vf.path and set(vt.fields) == set(vf.fields):
+            # `if c { S { .. } } else { S { .. } }`: the same struct with conditional fields (a private struct replacing a tuple)
+            return self.merge_val(c, vt, vf, None)
         return Ite(c, vt, vf)
+
+    @staticmethod
+    def parity_infeasible(c):
+        """`a == b` (not negated) over integer terms where a - b has an odd constant and only even coefficients"""
+        if not (isinstance(c, Cond) and c.op == "eq" and not c.neg and c.a is not None and c.b is not None):
+            return False
+        try:
+            d = sp.expand(sp.sympify(c.a) - sp.sympify(c.b))
+            if not d.free_symbols:
+                return False
+            const, rest = d.as_coeff_Add()
+            if not (const.is_Integer and int(const) % 2 == 1):
+                return False
+            for term in sp.Add.make_args(rest):
+                k, sym = term.as_coeff_Mul()
+                if not (k.is_Integer and int(k) % 2 == 0 and (sym.is_Symbol and sym.is_integer is not False)):
+                    return False
+            return True
+        except Exception:
+            return False
+
+    @staticmethod
+    def is_abort_value(rv):
+        """the values with which a guard *aborts* (the path is outside the accepting behaviour): Err, None, a panic"""
+        if isinstance(rv, Enum):
+            return rv.variant in ("Err", "None")
+        if isinstance(rv, Opaque):
+            return rv.what in ("panic", "error-value")
+        return False
 
     def disjuncts(self, c):
         if isinstance(c, Cond) and c.op == "or" and not c.neg and getattr(c, "parts", None):
@@ -1377,6 +1417,8 @@ class Interp:
             v_c, t_c, s_c = (vb, tb, sb) if ra is not None else (va, ta, sa)
             if any(it[0] != "guard" for it in t_ret.items):
                 raise Unanalysable("effects inside an early-return branch", where)
+            if not self.is_abort_value(self.deref(ret.val)):
+                raise Unanalysable("early return of a non-error value (inside a match or nested branch)", where)
             self.trace.items.extend(t_ret.items)
             self.trace.add("guard", c_ret, ret.val, where, self.fn_stack[-1] if self.fn_stack else "")
             self.learn(c_ret)
